@@ -213,8 +213,27 @@ class Facts:
 # Coq
 
 
+def ensure_generated():
+    """The generated model files must exist for coq_makefile's dependency scan, whichever check runs first (each check
+    regenerates the ones its property depends on; this only fills in missing ones, e.g. when no setup was run)."""
+    gen = os.path.join(COQ, "theories", "Model")
+    missing = [n for n in ("GenTables.v", "GenLib.v", "GenTemplates.v", "GenImp.v") if not os.path.exists(os.path.join(gen, n))]
+    if not missing:
+        return
+    from . import translate, imp_translate
+    if "GenTables.v" in missing:
+        translate.write_gentables(translate.generate()[0])
+    if "GenLib.v" in missing:
+        translate.write_genlib(translate.generate_lib())
+    if "GenTemplates.v" in missing:
+        translate.write_gentemplates(translate.generate_templates()[0])
+    if "GenImp.v" in missing:
+        imp_translate.write(imp_translate.generate()[0])
+
+
 def coq_make(targets=None, timeout=1500):
     """Full .vo build (never -vos) of the given targets (relative to coq/), default all."""
+    ensure_generated()
     with locked("coq"):
         mk = os.path.join(COQ, "Makefile")
         cp = os.path.join(COQ, "_CoqProject")
